@@ -459,6 +459,7 @@ func (s *Store[K, V]) setShardWithoutLock(shard *Shard[K, V], hash uint64, key K
 
 	if ok {
 		exist.value = value
+		exist.rewritten.Store(true)
 		old := exist.weight.Swap(cost)
 		result.oldCost = old
 		return result
@@ -492,6 +493,7 @@ func (s *Store[K, V]) setShardWithoutLock(shard *Shard[K, V], hash uint64, key K
 
 	entry.key = key
 	entry.value = value
+	entry.rewritten.Store(false)
 	entry.expire.Store(expire)
 	entry.weight.Store(cost)
 	entry.policyWeight = 0
@@ -658,7 +660,9 @@ func (s *Store[K, V]) removeEntry(entry *Entry[K, V], reason RemoveReason) {
 
 	switch reason {
 	case EVICTED, EXPIRED:
-		if reason == EVICTED && !entry.flag.IsFromNVM() && s.secondaryCache != nil {
+		// an entry read back from the secondary cache need not be written there again,
+		// unless its value was replaced since
+		if reason == EVICTED && (!entry.flag.IsFromNVM() || entry.rewritten.Load()) && s.secondaryCache != nil {
 			var rn float32 = 1
 			if s.probability < 1 {
 				rn = s.rg.Float32()
